@@ -8,7 +8,15 @@ import (
 
 type R struct{ s uint64 }
 
-func New(seed uint64) *R { return &R{s: seed*0x9E3779B97F4A7C15 + 0x1234567} }
+// New scrambles the seed first: with a linear initial state, neighbouring seeds would produce the
+// same stream shifted by one step (splitmix64's state is a counter).
+func New(seed uint64) *R {
+	z := seed + 0x1234567
+	z = (z ^ (z >> 33)) * 0xFF51AFD7ED558CCD
+	z = (z ^ (z >> 33)) * 0xC4CEB9FE1A85EC53
+	z ^= z >> 33
+	return &R{s: z}
+}
 
 // FromEnv seeds from VERIF_SEED (default 1) mixed with a per-engine salt.
 func FromEnv(salt uint64) *R { return New(Seed() ^ (salt << 32)) }
